@@ -30,7 +30,7 @@ From Verif.Note Require Import Note.
 (* ---- toy signature scheme ---------------------------------------------------------- *)
 
 Definition toy_h (seed : Z) (s : str) : Z :=
-  fold_left (fun h b => (h * 16777619 + b + 1) mod 4294967296) s seed.
+  fold_left (fun h b => Z.land (Z.shiftl h 5 + h + b + 1) 4294967295) s seed.   (* h*33+b+1 mod 2^32 *)
 
 (* up to 8 bytes; the length is the first key byte mod 9 (so some keys make empty or short
    signatures) *)
